@@ -112,17 +112,10 @@ func genIntervening(g simkit.G, p *pool) intervening {
 	default:
 		xs := append([]float64(nil), p.fl[2]...)
 		adj := p.adj[0]
-		return intervening{"aborted vec.Map / Dot.Fprint (callback panics)", func() {
-			simkit.Try(func() {
-				n := 0
-				vec.Map(func(x float64) float64 {
-					n++
-					if n == 2 {
-						panic(&simenv.Crash{Where: "vec.Map callback"})
-					}
-					return x
-				}, xs)
-			})
+		return intervening{"vec.Map on private data, then aborted Dot.Fprint (Label panics)", func() {
+			// vec.Map's documentation allows f to be evaluated in parallel, so a
+			// panic in f is not guaranteed to reach the caller: no crash is injected there.
+			vec.Map(func(x float64) float64 { return x + 1 }, xs)
 			d := graphout.Dot{Label: func(n int) string {
 				if n == 1 {
 					panic(&simenv.Crash{Where: "Dot.Label"})
